@@ -62,6 +62,17 @@ def mutate(lines, kind, r):
             if r.random() < 0.3:
                 out.append("  -- own line ; end process (")
             out.append(line + (HOSTILE if ci is None and line.strip() else ""))
+        elif kind == "squeeze":
+            # drop optional whitespace next to symbol tokens ("a <= b ;" -> "a<=b;"): never between two words
+            def word(x):
+                return x[:1].isalnum() or x[:1] in "_\\\"'"
+
+            sq = []
+            for i, x in enumerate(code):
+                if x.isspace() and 0 < i < len(code) - 1 and not (word(code[i - 1][-1:]) and word(code[i + 1])) and code[i + 1] not in ("-", "+") and code[i - 1] not in ("-", "+") and r.random() < 0.7:
+                    continue
+                sq.append(x)
+            out.append("".join(sq) + tail)
         elif kind == "case":
             f = r.choice([str.upper, str.lower, str.swapcase])
             code = [x if (x[:1] in "'\"\\" or x.isspace()) else f(x) for x in code]
